@@ -1,6 +1,8 @@
 import StunVerif.Props.C09
 import StunVerif.Props.C09Burst
 import StunVerif.Props.SrcFnParse
+import StunVerif.Props.SrcFnBuilder
+import StunVerif.Props.SrcFnWrite
 #print axioms StunVerif.C09.xor_constant
 #print axioms StunVerif.C09.crc_check_value
 #print axioms StunVerif.C09.build_fp
@@ -22,3 +24,21 @@ import StunVerif.Props.SrcFnParse
 #print axioms StunVerif.SrcFnParse.walk_agree
 #print axioms StunVerif.SrcFnParse.src_msgFromBytes
 #print axioms StunVerif.SrcFnParse.src_accepts_iff
+#print axioms StunVerif.SrcFnBuilder.src_hasAttribute
+#print axioms StunVerif.SrcFnBuilder.src_hasAnyAttribute
+#print axioms StunVerif.SrcFnBuilder.src_addRawAttribute
+#print axioms StunVerif.SrcFnBuilder.src_addAttribute
+#print axioms StunVerif.SrcFnBuilder.src_addFingerprint
+#print axioms StunVerif.SrcFnBuilder.model_addFingerprint_refused
+#print axioms StunVerif.SrcFnBuilder.src_addMessageIntegrity_guard
+#print axioms StunVerif.SrcFnBuilder.src_integrityBytes
+#print axioms StunVerif.SrcFnBuilder.src_addMessageIntegrity
+#print axioms StunVerif.SrcFnBuilder.src_addFingerprint_full
+#print axioms StunVerif.SrcFnWrite.src_byteLen
+#print axioms StunVerif.SrcFnWrite.src_writeAttrsLoop
+#print axioms StunVerif.SrcFnWrite.encBE_mod
+#print axioms StunVerif.SrcFnWrite.tid_word
+#print axioms StunVerif.SrcFnWrite.header_puts
+#print axioms StunVerif.SrcFnWrite.src_writeInto
+#print axioms StunVerif.SrcFnWrite.src_build
+#print axioms StunVerif.SrcFnWrite.build_is_source
